@@ -260,7 +260,7 @@ func judgeCase(ctx context.Context, env *hostEnv, c Case) Verdict {
 
 var (
 	reQuoted = regexp.MustCompile(`'[^']*'|"[^"]*"`)
-	reNum    = regexp.MustCompile(`-?\d+(\.\d+)?`)
+	reNum    = regexp.MustCompile(`-?\d+(\.\d+)?(e[+-]?\d+)?`)
 	rePos    = regexp.MustCompile(`^\d+:\d+\s+`)
 	reType   = regexp.MustCompile(`\b([iuf])(8|16|32|64)\b`)
 	reSpace  = regexp.MustCompile(`\s+`)
@@ -349,53 +349,54 @@ func shape(e *E) string {
 	return head
 }
 
-func bodyShape(body []*S) string {
-	var parts []string
+// stmtKinds collects the statement kinds present in a body.
+func stmtKinds(body []*S, into map[string]struct{}) {
 	for _, s := range body {
-		var p string
 		switch s.K {
 		case SDecl:
-			p = "decl." + s.T.String()
-			if !s.Explicit {
-				p = "decl-inferred." + s.T.String()
+			if s.Explicit {
+				into["decl"] = struct{}{}
+			} else {
+				into["decl-inferred"] = struct{}{}
 			}
 		case SState:
-			p = "state." + s.T.String()
+			into["state"] = struct{}{}
 		case SAssign:
-			p = "assign." + s.T.String()
+			into["assign"] = struct{}{}
 		case SCompound:
-			p = "compound-" + opName(s.Op) + "." + s.T.String()
+			into["compound-"+opName(s.Op)] = struct{}{}
 		case SIf:
-			p = "if[" + bodyShape(s.Body) + "]"
-			for _, ei := range s.Elifs {
-				p += "elif[" + bodyShape(ei.Body) + "]"
+			into["if"] = struct{}{}
+			if len(s.Elifs) > 0 {
+				into["elif"] = struct{}{}
 			}
 			if s.HasElse {
-				p += "else[" + bodyShape(s.Else) + "]"
+				into["else"] = struct{}{}
 			}
 		case SForRange:
-			p = fmt.Sprintf("range%d.%s[%s]", len(s.Args), s.T, bodyShape(s.Body))
+			into[fmt.Sprintf("range%d", len(s.Args))] = struct{}{}
 		case SForCond:
-			p = "forcond[" + bodyShape(s.Body) + "]"
+			into["forcond"] = struct{}{}
 		case SForInf:
-			p = "forinf[" + bodyShape(s.Body) + "]"
+			into["forinf"] = struct{}{}
 		case SBreak:
-			p = "break"
+			into["break"] = struct{}{}
 		case SContinue:
-			p = "continue"
+			into["continue"] = struct{}{}
 		case SReturn:
-			p = "ret"
+			into["ret"] = struct{}{}
 		}
-		if sh := shape(s.X); sh != "" && s.K != SIf {
-			p += "(" + sh + ")"
-		} else if sh != "" {
-			p = "if(" + sh + ")" + strings.TrimPrefix(p, "if")
+		stmtKinds(s.Body, into)
+		stmtKinds(s.Else, into)
+		for _, ei := range s.Elifs {
+			stmtKinds(ei.Body, into)
 		}
-		parts = append(parts, p)
 	}
-	return strings.Join(parts, ";")
 }
 
+// funcShape: for `return <expr>` functions the operator skeleton of the expression; for
+// anything else the set of statement kinds left after minimisation (the full structure is
+// in the witness; it would make nearly every signature unique).
 func funcShape(f *Func) string {
 	if len(f.Body) == 1 && f.Body[0].K == SReturn {
 		s := shape(f.Body[0].X)
@@ -404,11 +405,14 @@ func funcShape(f *Func) string {
 		}
 		return s
 	}
-	s := bodyShape(f.Body)
-	if len(s) > 120 {
-		s = s[:120] + "~"
+	set := map[string]struct{}{}
+	stmtKinds(f.Body, set)
+	ks := make([]string, 0, len(set))
+	for k := range set {
+		ks = append(ks, k)
 	}
-	return s
+	sortStrings(ks)
+	return "stmts[" + strings.Join(ks, ",") + "]"
 }
 
 // precTags: places where the printed text relies on a precedence rule on which spec.md's
